@@ -50,13 +50,13 @@ Lemma to_lower_49 c : to_lower c = 49 <-> c = 49.
 Proof. unfold to_lower. destruct ((65 <=? c) && (c <=? 90)) eqn:E; lia. Qed.
 
 Lemma lower_no_sep d : ~ In 49 d -> ~ In 49 (map to_lower d).
-Proof. intros H Hin. apply in_map_iff in Hin as (c & Ec & Hc). apply to_lower_49 in Ec. subst. contradiction. Qed.
+Proof. intros H Hin. apply in_map_iff in Hin as (c & Ec & Hc). destruct (to_lower_49 c) as [Hf _]. apply Hf in Ec. subst c. exact (H Hc). Qed.
 
 Lemma firstn_app_len {A} (l r : list A) : firstn (0 + length l) (l ++ r) = l.
-Proof. induction l; cbn; congruence. Qed.
+Proof. change (0 + length l)%nat with (length l). induction l; cbn; congruence. Qed.
 
 Lemma skipn_app_len {A} (l r : list A) x : skipn (0 + length l + 1) (l ++ x :: r) = r.
-Proof. induction l; cbn; auto. Qed.
+Proof. change (0 + length l)%nat with (length l). induction l; cbn; auto. Qed.
 
 (* ---------- to_bytes ---------- *)
 Definition idx (c : N) : N := match index_of c charset 0 with Some i => i | None => 0 end.
@@ -95,7 +95,7 @@ Proof.
   - destruct (index_of c charset 0) as [i|] eqn:Ei; [|discriminate].
     destruct (to_bytes t) as [r|]; [|discriminate]. inversion H; subst.
     destruct (IH r eq_refl) as [-> HF]. split.
-    + cbn [map]. unfold idx at 1. rewrite Ei. reflexivity.
+    + cbn [map]. f_equal. unfold idx. rewrite Ei. reflexivity.
     + constructor; [unfold inset; rewrite Ei; discriminate | exact HF].
 Qed.
 
@@ -131,7 +131,7 @@ Proof.
   rewrite map_app in H. cbn [map] in H. change (to_lower 49) with 49 in H.
   rewrite (last_index_app 49 (map to_lower hrp) (map to_lower data) (lower_no_sep data Hsep)) in H.
   rewrite map_length in H.
-  destruct ((0 + length hrp <? 1)%nat || (length (hrp ++ 49 :: data) <? 0 + length hrp + 7)%nat) eqn:Eone; [discriminate|].
+  match type of H with context [if ?b then Err 4 else _] => destruct b eqn:Eone; [discriminate|] end.
   rewrite <- (map_length to_lower hrp) in H. rewrite skipn_app_len, firstn_app_len in H.
   destruct (to_bytes (map to_lower data)) as [decoded|]; [|discriminate].
   destruct (verify_checksum (map to_lower hrp) decoded) eqn:Ev; [|discriminate].
@@ -198,15 +198,30 @@ Proof.
 Qed.
 
 (* ---------- why the side conditions are there ---------- *)
-(* (a) a pure change of case of every letter is the same address: "21gq6kscj" has a single letter
-   run in its data part; upper-casing it is 4 substitutions and decodes to the same value *)
+(* (a) upper-casing every letter gives the same address: "21q223gu6y" / "21Q223GU6Y" (hrp "2" has no
+   letter, the data part has four): 4 substitutions, accepted, same decoded value.  CashAddr does
+   not have this case because its prefix must contain a letter. *)
 Lemma bech32_case_variant_accepted : exists s s' r,
-  length s' = length s /\ (1 <= hamming s s' <= 4)%nat /\
+  length s' = length s /\ hamming s s' = 4%nat /\
   Bech32.decode s = Ok r /\ Bech32.decode s' = Ok r.
 Proof.
-  (* "21" ++ "2220c2" / "2220C2": data [10;10;10;15;24;10] is its own... see the witness search in the harness notes *)
-  exists [50;49;50;50;50;48;57;50;99;115], [50;49;50;50;50;48;57;50;67;83]. eexists.
-  split; [reflexivity|]. split; [vm_compute; lia|]. split; vm_compute; reflexivity.
+  exists [50;49;113;50;50;51;103;117;54;121], [50;49;81;50;50;51;71;85;54;89]. eexists.
+  split; [reflexivity|]. split; [reflexivity|]. split; vm_compute; reflexivity.
+Qed.
+
+(* (b) substituting a data character by the separator '1' moves the boundary between the
+   human-readable part and the data, so the result is checked as a different codeword of a
+   different code: "a1ma9rt0dntpfqpf" (hrp "a") and "a1ma9rt0d1tpfqpf" (hrp "a1ma9rt0d", empty data)
+   are both accepted and differ in ONE character.  This is a property of bech32 as specified
+   (BIP173), reproduced by any conforming decoder; it is not a defect of bchutil.  Found by a
+   state-collision search (2^24 trials), see design/notes_C03.md. *)
+Lemma bech32_separator_substitution_accepted : exists s s' r r',
+  length s' = length s /\ hamming s s' = 1%nat /\
+  Bech32.decode s = Ok r /\ Bech32.decode s' = Ok r'.
+Proof.
+  exists [97;49;109;97;57;114;116;48;100;110;116;112;102;113;112;102],
+         [97;49;109;97;57;114;116;48;100;49;116;112;102;113;112;102]. do 2 eexists.
+  split; [reflexivity|]. split; [reflexivity|]. split; vm_compute; reflexivity.
 Qed.
 
 Print Assumptions bech32_detects_4.
